@@ -88,7 +88,9 @@ func runTransfer(view *memFS, dest string, kind, k int) (sendErr, recvErr error,
 	sendDone, recvDone := make(chan struct{}), make(chan struct{})
 	go func() {
 		sendErr = Send(ctx, s1, view, nil)
-		if sendErr == nil {
+		// a sender that succeeded closes its direction; one that failed either hangs up as well
+		// (the peer sees a clean end of stream before FIN) or leaves the stream open
+		if sendErr == nil || v.Bool("sender-hangs-up") {
 			s1.CloseSend()
 		}
 		close(sendDone)
@@ -108,7 +110,10 @@ func runTransfer(view *memFS, dest string, kind, k int) (sendErr, recvErr error,
 	}
 	if !isDone(sendDone) || !isDone(recvDone) {
 		v.Cover("teardown-needed")
-		cancel()
+		// the stream is torn down; the caller's context may or may not be cancelled with it
+		if v.Bool("cancel-with-teardown") {
+			cancel()
+		}
 		s1.Break()
 	}
 	<-sendDone
